@@ -2,6 +2,7 @@ import Lean.Data.Json
 import Coraza.Model.Engine
 import Coraza.Model.Macro
 import Coraza.Model.Recycle
+import Coraza.Model.Uri
 import Coraza.Model.Operators
 import Coraza.Model.Regex
 import Driver.Tf
@@ -216,6 +217,7 @@ structure Case where
   post : List (Bytes × Bytes)
   hdr : List (Bytes × Bytes)
   calls : List Call
+  uri : Option Bytes := none   -- ProcessURI(uri, "GET", "HTTP/1.1") before the Add* calls
 
 def parseCase (s : String) (rxm : RxMode := .code) : Except String Case := do
   let j ← Json.parse s
@@ -233,9 +235,15 @@ def parseCase (s : String) (rxm : RxMode := .code) : Except String Case := do
   let rs := match j.getObjValAs? String "rs" with | .ok s => s | _ => "-"
   let resp := match j.getObjValAs? String "resp" with | .ok s => (Bytes.ofField s).getD [] | _ => []
   let parts := match j.getObjValAs? String "parts" with | .ok s => (Bytes.ofField s).getD [] | _ => []
-  pure { ae := ae, rs := rs, resp := resp, parts := parts, mode := mode, rules := rules, cfgErr := cfgErr, get := get, post := post, hdr := hdr, calls := calls }
+  let uri := match j.getObjValAs? String "uri" with | .ok s => Bytes.ofField s | _ => none
+  pure { ae := ae, rs := rs, resp := resp, parts := parts, mode := mode, rules := rules, cfgErr := cfgErr, get := get, post := post, hdr := hdr, calls := calls, uri := uri }
 
-def initTx (c : Case) : Tx := { feed (newTx c.mode {} c.ae c.parts) c.get c.post c.hdr with respCode := c.resp }
+def initTx (c : Case) : Tx :=
+  let tx0 := newTx c.mode {} c.ae c.parts
+  let tx1 := match c.uri with
+    | some u => processURI tx0 u (Bytes.ofString "GET")
+    | none => tx0
+  { feed tx1 c.get c.post c.hdr with respCode := c.resp }
 
 /-! ### canonical rendering (must match go/cmd/corr/eng.go) -/
 
@@ -285,7 +293,14 @@ def rulePatterns (r : Rule) : List Bytes :=
 
 /-- inputs outside the modelled fragment: lowercase/uppercase are modelled on ASCII only; regex keys and
     @rx arguments outside the regex fragment -/
-def outsideModel (c : Case) : Bool :=
+def outsideModel (c0 : Case) : Bool :=
+  -- the arguments of the request URI's query count as GET arguments, the URI itself as a value
+  let uriArgs : List (Bytes × Bytes) := match c0.uri with
+    | some u => (u, u) :: Coraza.Decode.parseQuery ((cut1 0x3f (cut1 0x23 u).1).2.getD [])
+    | none => []
+  let uriOut := match c0.uri with | some u => !uriInFragment u | none => false
+  let c : Case := { c0 with get := uriArgs ++ c0.get }
+  uriOut ||
   let nonAscii (ps : List (Bytes × Bytes)) := ps.any fun p => !(p.1.all isAscii && p.2.all isAscii)
   let nonAsciiKey (ps : List (Bytes × Bytes)) := ps.any fun p => !p.1.all isAscii
   let caseTf := c.rules.any fun r => r.links.any fun l => l.tfs.any fun t => t.toLower == "lowercase" || t.toLower == "uppercase"
